@@ -17,7 +17,9 @@ Traces == Data.traces
 NT == Len(Traces)
 RangeOf(s) == {s[q] : q \in 1..Len(s)}
 NormDag(G) == [n |-> G.n, deps |-> [k \in 1..G.n |-> RangeOf(G.deps[k])], kind |-> G.kind,
-               const |-> G.const, np |-> G.np, defaults |-> G.defaults, argof |-> G.argof]
+               const |-> G.const, np |-> G.np, defaults |-> G.defaults, argof |-> G.argof,
+               off |-> RangeOf(G.off),          \* call sites with a constant falsy activation flag: never entered
+               nonefn |-> RangeOf(G.nonefn)]    \* nodes whose function returns None (their value carries no counter)
 Ds == [q \in 1..Len(Data.dags) |-> NormDag(Data.dags[q])]
 Bits(n, m) == IF m = -1 THEN None ELSE {k \in 1..n : (m \div (2 ^ (k - 1))) % 2 = 1}
 
@@ -59,11 +61,13 @@ ExecClauses(D, e, S, v) ==
        <<e.out = 0 /\ \E p \in 1..D.np : e.used[p] # -2 /\ e.used[p] # eff[p], "C15.leak-args">>,
        <<e.out = 0 /\ ~e.fresh, "C15.not-fresh">>,
        <<e.out = 0 /\ \E k \in DoneSet(D, v) : e.retn[k] # 0 /\ e.retn[k] # v[k], "C11.stale-value">>,
-       <<e.out = 0 /\ \E k \in SetupOf(D, Runs(D, S, v)) : e.nonces[k] <= maxn, "C11.value">>})
+       <<e.out = 0 /\ \E k \in SetupOf(D, Runs(D, S, v)) \ D.nonefn : e.nonces[k] <= maxn, "C11.value">>})
 
 \* setup values after a successful execution of S on an instance holding v
-After(D, e, S, v) == [k \in 1..D.n |-> IF k \in SetupOf(D, Runs(D, S, v)) THEN e.nonces[k] ELSE v[k]]
-MaxOf(D, e) == LET s == {e.nonces[k] : k \in 1..D.n} \cup {maxn} IN CHOOSE m \in s : \A y \in s : y <= m
+\* every setup node a successful execution had to run IS computed from now on, whatever the library stored
+\* (-1: its value could not be observed, e.g. the key is missing from the DAG-level results)
+After(D, e, S, v) == [k \in 1..D.n |-> IF k \in SetupOf(D, Runs(D, S, v)) THEN (IF e.nonces[k] # 0 THEN e.nonces[k] ELSE -1) ELSE v[k]]
+MaxOf(D, e) == LET s == {e.nonces[k] : k \in (1..D.n) \ D.nonefn} \cup {maxn} IN CHOOSE m \in s : \A y \in s : y <= m
 
 KeysClauses(D, e, vnew) ==
   Clauses({<<Bits(D.n, e.keys) # DoneSet(D, vnew), "C11.results-keys">>,
@@ -115,7 +119,7 @@ Step ==
                   <<raised /\ Bits(n, e.e) # {}, "C12.raise-ran">>,
                   <<ok /\ ~must /\ Bits(n, e.e) # Runs(D, S, v), "C11.setup-exec">>,
                   <<Bits(n, e.e) \cap DoneSet(D, v) # {}, "C11.rerun">>,
-                  <<ok /\ \E k \in SetupOf(D, Runs(D, S, v)) : e.nonces[k] <= maxn, "C11.value">>})
+                  <<ok /\ \E k \in SetupOf(D, Runs(D, S, v)) \ D.nonefn : e.nonces[k] <= maxn, "C11.value">>})
             IN /\ viol' = Mark(bad \cup KeysClauses(D, e, vnew))
                /\ val' = [val EXCEPT ![i] = vnew]
                /\ maxn' = IF ok THEN MaxOf(D, e) ELSE maxn
@@ -144,7 +148,7 @@ Step ==
                   <<E \cap have # {}, "C18.recomputed">>,
                   <<E \cap DoneSet(D, vv) # {}, "C11.rerun">>,
                   <<E \cap DoneSet(D, vv) # {}, "C03.hist-exec">>,
-                  <<ok /\ E # (S \ have) \ DoneSet(D, vv), "C18.exec">>,
+                  <<ok /\ E # ((S \ have) \ DoneSet(D, vv)) \ D.off, "C18.exec">>,
                   <<ok /\ ~e.fresh, "C18.value">>,
                   <<Bits(n, e.dup) # {}, "C03.twice">>})
             IN /\ viol' = Mark(bad \cup Clauses({<<e.xkeys # 0, "C15.results-polluted">>}))
@@ -190,7 +194,7 @@ Step ==
                 bad == Clauses({
                   <<e.out # 0, "C18.restart-error">>,
                   <<E \cap have # {}, "C18.recomputed">>,
-                  <<ok /\ E # (S \ have) \ DoneSet(D, v), "C18.exec">>,
+                  <<ok /\ E # ((S \ have) \ DoneSet(D, v)) \ D.off, "C18.exec">>,
                   <<ok /\ ~e.fresh, "C18.value">>,
                   <<Bits(n, e.dup) # {}, "C03.twice">>})
             IN /\ viol' = Mark(bad \cup Clauses({<<e.xkeys # 0, "C15.results-polluted">>}))
